@@ -13,7 +13,8 @@
 
   Executed at `Float` by `Driver/Loop.lean` against recorded traces of the real solver
   (bit-exact replay of every callback field, the returned x / y / err_z and the statistics);
-  theorems are in `Props/C03.lean`, `Props/C05.lean`, `Props/C19.lean`.
+  theorems are in `Props/C03.lean`, `Props/C05.lean`, `Props/C06_Panoc.lean`, `Props/C19_Panoc.lean`,
+  `Props/C01_Alm.lean`; fuel sufficiency in `Proofs/PanocFuel.lean`, sizes in `Proofs/PanocSized.lean`.
 -/
 import Alpaqa.Model.Vec
 import Alpaqa.Gen.C05
@@ -68,7 +69,10 @@ structure Params (α : Type) where
   /-- `InnerSolveOptions` -/
   alwaysOverwrite : Bool
   tolerance : α
-  /-- fuel for the inner `while` (the C++ loop has none; `Props/C05` shows a bound suffices) -/
+  /-- fuel for the inner `while` loops (line search, initial step-size loop; the C++ loops have none).
+      `Proofs/PanocFuel.run_fuel_suffices`: `(n+1)(K+1)` suffices when `L_max ≤ L_start·2ⁿ` and
+      `ρᴷ < min_linesearch_coefficient` (defaults: `n = 84`, `K = 9`, 850 passes); the replay drivers
+      keep the default 4096 and report `FUEL-EXHAUSTED` should it ever run out. -/
   lsFuel : Nat := 4096
 
 structure Iterate (α : Type) where
